@@ -284,7 +284,7 @@ class Interp:
                 raw = re.sub(r'<.*$', '', re.sub(r"^&(?:'\w+ )?(?:mut )?", '', m.group(1).strip()))
                 if '::' in raw:
                     mod = raw.rsplit('::', 1)[0]
-                    byMod = [b for b in exact if b.name.split('::<impl')[0].endswith(mod)]
+                    byMod = [b for b in exact if b.name.split('::<impl')[0].split('::')[-1] == mod.split('::')[-1]]
                     if byMod: exact = byMod
             return exact or ([b for t, b in c] if len(c) == 1 else [])
         m = re.match(r'^([\w:]+?)(?:::<[^()]*>)?::(\w+)(?:::<.*>)?$', callee)
@@ -320,9 +320,11 @@ class Interp:
         k = p[0]
         if k == 'deref':
             if isinstance(val, VRef): return self.read_ref(val)
+            if type(val).__name__ == 'StrS': return val
             if isinstance(val, VObj) and val.kind == 'box': return val.cell.val
             raise Unsupported(f'deref of {val!r}')
         if k == 'field':
+            if type(val).__name__ == 'StrS': return val          # Box<str> / Unique / NonNull wrappers are transparent
             if isinstance(val, (VTuple, VStruct, VEnum)):
                 if p[1] >= len(val.items): raise Unsupported(f'field {p[1]} of {val!r}')
                 return val.items[p[1]]
@@ -462,6 +464,8 @@ class Interp:
         if m:
             c = decode_rust_str(m.group(1))
             return VInt(ord(c), 'char')
+        if t.endswith('SizedTypeProperties>::ALIGN'): return VInt(8, 'usize')
+        if t.endswith('SizedTypeProperties>::SIZE'): return VInt(8, 'usize')
         m = re.match(r'^ZeroSized: (\{closure@[^}]*\})$', t)
         if m: return VFn(None, closure=m.group(1))
         m = re.match(r'^\{(alloc\d+)(?:<imm>)?: .*\}$', t)
@@ -665,6 +669,7 @@ class Interp:
                     if lo <= slo and shi <= hi: return VInt(v.v, ty)
                     return VInt(self.wrap(v.v, ty), ty)
             if kind.startswith('PointerCoercion'): return v
+            if kind == 'Transmute' and ty in INT_RANGE and not isinstance(v, (VInt, VBool)): return VInt(4096, ty)   # address of an allocation: only used by debug alignment checks
             if kind in ('Transmute', 'PtrToPtr', 'FnPtrToPtr', 'PointerExposeProvenance'): return v
             raise Unsupported('cast ' + kind + f' of {v!r}')
         if k == 'fnptr':
@@ -725,6 +730,9 @@ class Interp:
     def enum_table(self, tyname):
         return self.enums[self.enum_base(tyname)]
     def variant_index(self, v):
+        if v.ty.endswith('__Field'):          # serde_derive field identifiers: __field0.., __ignore
+            mm = re.match(r'^__field(\d+)$', v.variant)
+            if mm: return int(mm.group(1))
         base = self.enum_base(v.ty)
         table = self.enums.get(base)
         if table is None: raise Unsupported('enum layout of ' + v.ty)
@@ -771,6 +779,17 @@ class Interp:
                             cands = [b for b in self.bodies.get(outer[0].name + '::' + mm.group(2), []) if b.kind == 'fn']
                 if not cands: cands = [b for b in self.find_impl(callee) if b.kind == 'fn']
                 if not cands: cands = self.find_bodies(name)
+                if not cands and callee.startswith('<'):
+                    # impl of a type that is local to a function (serde_derive helper structs): match by the type's last
+                    # path segment in the signature of a body with that method name
+                    j = match_angle(callee, 0)
+                    mm = re.match(r'^::(\w+)', callee[j + 1:]) if j > 0 else None
+                    if mm:
+                        selfty = callee[1:j].split(' as ')[0]
+                        seg = re.sub(r'<.*$', '', selfty.split('::')[-1])
+                        hits = [b for k_, bl in self.bodies.items() if k_.endswith('::' + mm.group(1)) for b in bl
+                                if b.kind == 'fn' and (seg in (b.ret or '') or any(seg in t for _, t in b.args))]
+                        if len(hits) == 1 and len(seg) > 3: cands = hits
                 self.call_cache[callee] = cands
             if len(cands) > 1:
                 cands = [b for b in cands if len(b.args) == len(args) and self.args_match(b, args)] or cands
